@@ -21,6 +21,7 @@ import (
 	"encoding/json"
 	"errors"
 	"fmt"
+	"io"
 	"runtime"
 	"sort"
 	"strings"
@@ -45,11 +46,22 @@ type Node struct {
 	Slow  bool  `json:"slow,omitempty"` // body sleeps 25-40 ms (eager: widen the return window)
 }
 
+// Branch: a multi-branch on node From whose condition always selects Sel (a subset of Ends).
+// Cases with branches are outside the Coq order-side model (skip propagation belongs to C01/C02):
+// they are checked by the direct oracle and by the protocol-trace conformance only.
+type Branch struct {
+	From int   `json:"from"`
+	Ends []int `json:"ends"`
+	Sel  []int `json:"sel"`
+}
+
 type Case struct {
-	Mode   string   `json:"mode"`  // pregel | dag | eager
-	Nodes  []Node   `json:"nodes"` // layered order; the last one is END (id 1)
-	Seeds  []uint64 `json:"seeds"` // one run per delay seed
-	Traced int      `json:"traced"` // the first Traced runs record the protocol trace
+	Mode     string   `json:"mode"`  // pregel | dag | eager
+	Nodes    []Node   `json:"nodes"` // layered order; the last one is END (id 1)
+	Branches []Branch `json:"branches,omitempty"`
+	Entry    string   `json:"entry,omitempty"` // "" = Invoke; "stream" = Stream, the chunks merged by key
+	Seeds    []uint64 `json:"seeds"` // one run per delay seed
+	Traced   int      `json:"traced"` // the first Traced runs record the protocol trace
 }
 
 func key(id int) string {
@@ -123,6 +135,8 @@ type runState struct {
 	log    []exec
 }
 
+type rsKey struct{}
+
 type runObs struct {
 	Class   string   `json:"class"` // val | err | panic | hang
 	Val     []uint64 `json:"val,omitempty"`
@@ -147,7 +161,13 @@ type built struct {
 
 func (b *built) body(n *Node) func(ctx context.Context, in map[string]any) (map[string]any, error) {
 	return func(ctx context.Context, in map[string]any) (map[string]any, error) {
-		rs := b.cur.Load().(*runState)
+		// the run state travels in the context of the run: a task goroutine of an abandoned earlier
+		// run (eager mode returns without collecting everything) that starts its body late must not
+		// write into the log of the next run
+		rs, _ := ctx.Value(rsKey{}).(*runState)
+		if rs == nil {
+			rs = b.cur.Load().(*runState)
+		}
 		atomic.AddInt32(&rs.starts[n.ID], 1)
 		atomic.StoreInt32(&rs.state[n.ID], 1)
 		var r []uint64
@@ -193,22 +213,8 @@ func build(c *Case) *built {
 			b.maxID = n.ID
 		}
 	}
-	// ancestors of END
-	b.anc = map[int]bool{idEnd: true}
-	for changed := true; changed; {
-		changed = false
-		for i := range c.Nodes {
-			n := &c.Nodes[i]
-			if b.anc[n.ID] {
-				for _, p := range n.Preds {
-					if !b.anc[p] {
-						b.anc[p] = true
-						changed = true
-					}
-				}
-			}
-		}
-	}
+	// ancestors of END (data edges, and the branches that decide whether an ancestor runs)
+	b.anc = build0(c)
 	ctx := context.Background()
 	var err error
 	if p := lib.Recover(func() {
@@ -231,6 +237,11 @@ func build(c *Case) *built {
 					}
 				}
 			}
+			for _, br := range c.Branches {
+				if err = g.AddBranch(key(br.From), branchOf(br)); err != nil {
+					return
+				}
+			}
 			var opts []compose.GraphCompileOption
 			if c.Mode == "dag" {
 				opts = append(opts, compose.WithNodeTriggerMode(compose.AllPredecessor))
@@ -238,7 +249,7 @@ func build(c *Case) *built {
 			var r compose.Runnable[map[string]any, map[string]any]
 			r, err = g.Compile(ctx, opts...)
 			if err == nil {
-				b.run = func(ctx context.Context, in map[string]any) (map[string]any, error) { return r.Invoke(ctx, in) }
+				b.run = entryOf(c, r)
 			}
 		case "eager":
 			wf := compose.NewWorkflow[map[string]any, map[string]any]()
@@ -254,10 +265,13 @@ func build(c *Case) *built {
 					wn.AddInput(key(p), compose.MapFields(field(p), field(p)))
 				}
 			}
+			for _, br := range c.Branches {
+				wf.AddBranch(key(br.From), branchOf(br))
+			}
 			var r compose.Runnable[map[string]any, map[string]any]
 			r, err = wf.Compile(ctx)
 			if err == nil {
-				b.run = func(ctx context.Context, in map[string]any) (map[string]any, error) { return r.Invoke(ctx, in) }
+				b.run = entryOf(c, r)
 			}
 		default:
 			err = errors.New("unknown mode")
@@ -298,7 +312,9 @@ func (b *built) once(seed uint64, traced bool) *runObs {
 	ch := make(chan ret, 1)
 	go func() {
 		var r ret
-		r.pan = lib.Recover(func() { r.out, r.err = b.run(context.Background(), map[string]any{"in": map[string]any{}}) })
+		r.pan = lib.Recover(func() {
+			r.out, r.err = b.run(context.WithValue(context.Background(), rsKey{}, rs), map[string]any{"in": map[string]any{}})
+		})
 		ch <- r
 	}()
 	o := &runObs{}
@@ -545,6 +561,34 @@ func (engine) Generate(r *lib.Rng, tier string, i int) any {
 		end.Preds = pickSome(r, e, r.Range(1, 2))
 	}
 	c.Nodes = append(c.Nodes, end)
+	// one case in five carries one or two multi-branches (skip propagation in the all-predecessor
+	// modes): From in a layer, Ends = 2-3 nodes of the next layer, Sel = a subset, possibly empty
+	if L >= 2 && r.Chance(1, 5) {
+		nb := r.Range(1, 2)
+		used := map[int]bool{}
+		for k := 0; k < nb; k++ {
+			l := r.Intn(L - 1)
+			from := layers[l][r.Intn(len(layers[l]))]
+			if used[from] {
+				continue
+			}
+			used[from] = true
+			if len(layers[l+1]) < 2 {
+				continue // a multi-branch needs at least two end nodes
+			}
+			ends := pickSome(r, layers[l+1], r.Range(2, 3))
+			var sel []int
+			for _, e := range ends {
+				if r.Chance(1, 2) {
+					sel = append(sel, e)
+				}
+			}
+			if c.Mode == "pregel" && len(sel) == 0 {
+				sel = ends[:1]
+			}
+			c.Branches = append(c.Branches, Branch{From: from, Ends: ends, Sel: sel})
+		}
+	}
 	b := build0(c)
 	// failures
 	if r.Chance(1, 5) {
@@ -593,6 +637,9 @@ func (engine) Generate(r *lib.Rng, tier string, i int) any {
 				}
 			}
 		}
+	}
+	if r.Chance(1, 4) {
+		c.Entry = "stream"
 	}
 	for k := 0; k < nseeds; k++ {
 		c.Seeds = append(c.Seeds, r.U64()>>1)
@@ -649,8 +696,65 @@ func build0(c *Case) map[int]bool {
 				}
 			}
 		}
+		for _, br := range c.Branches {
+			for _, e := range br.Ends {
+				if anc[e] && !anc[br.From] {
+					anc[br.From] = true
+					changed = true
+				}
+			}
+		}
 	}
 	return anc
+}
+
+// entryOf: the public entry point the case goes through. Stream returns a stream of maps with
+// disjoint keys (one chunk per predecessor of END); the harness merges them into one map.
+func entryOf(c *Case, r compose.Runnable[map[string]any, map[string]any]) func(ctx context.Context, in map[string]any) (map[string]any, error) {
+	if c.Entry != "stream" {
+		return func(ctx context.Context, in map[string]any) (map[string]any, error) { return r.Invoke(ctx, in) }
+	}
+	return func(ctx context.Context, in map[string]any) (map[string]any, error) {
+		sr, err := r.Stream(ctx, in)
+		if err != nil {
+			return nil, err
+		}
+		defer sr.Close()
+		out := map[string]any{}
+		for {
+			chunk, err := sr.Recv()
+			if err == io.EOF {
+				return out, nil
+			}
+			if err != nil {
+				return nil, err
+			}
+			for k, v := range chunk {
+				if _, dup := out[k]; dup {
+					return nil, fmt.Errorf("harness: key %s delivered twice in the output stream", k)
+				}
+				out[k] = v
+			}
+		}
+	}
+}
+
+func branchOf(br Branch) *compose.GraphBranch {
+	ends := map[string]bool{}
+	for _, e := range br.Ends {
+		ends[key(e)] = true
+	}
+	sel := map[string]bool{}
+	for _, e := range br.Sel {
+		sel[key(e)] = true
+	}
+	return compose.NewGraphMultiBranch(func(ctx context.Context, in map[string]any) (map[string]bool, error) {
+		out := make(map[string]bool, len(sel))
+		for k := range sel {
+			out[k] = true
+		}
+		return out, nil
+	}, ends)
 }
 
 func coqNs(xs []uint64) string {
@@ -818,6 +922,11 @@ func (engine) Run(ci any) lib.Result {
 		width = len(c.Nodes) - 1
 	}
 	res.Tags = []string{"mode:" + c.Mode, fmt.Sprintf("nodes:%d", width)}
+	if c.Entry == "stream" {
+		res.Tags = append(res.Tags, "entry:stream")
+	} else {
+		res.Tags = append(res.Tags, "entry:invoke")
+	}
 	if b.buildE != "" {
 		res.Obs = obsOut{BuildErr: b.buildE}
 		res.Oracle = "generated graph does not build: " + b.buildE
@@ -960,7 +1069,14 @@ func (engine) Run(ci any) lib.Result {
 	for i, d := range distinct {
 		obsS[i] = d.coq()
 	}
-	res.CoqTerm = fmt.Sprintf("mkcase %d %s [%s] [%s]", modeN, c.coqGraph(), strings.Join(obsS, ";"), strings.Join(traces, ";\n  "))
+	if len(c.Branches) == 0 {
+		res.CoqTerm = fmt.Sprintf("mkcase %d %s [%s] [%s]", modeN, c.coqGraph(), strings.Join(obsS, ";"), strings.Join(traces, ";\n  "))
+	} else {
+		// outside the order-side model: only the protocol traces go to Coq (an empty graph and no
+		// observation make the black-box part of the comparison vacuous)
+		res.CoqTerm = fmt.Sprintf("mkcase %d [] [] [%s]", modeN, strings.Join(traces, ";\n  "))
+		res.Tags = append(res.Tags, fmt.Sprintf("branches:%d", len(c.Branches)))
+	}
 	return res
 }
 
